@@ -23,6 +23,7 @@ vars == <<c>>
 \* ---------------- names: a name is a sequence of one-character strings
 nA      == <<"a">>                     \* a directory holding the file t (so that a?t could read a/t)
 nB      == <<"b">>
+nAB     == <<"a", "b">>                \* a directory whose name extends that of its sibling a
 nT      == <<"t">>
 nD      == <<"d">>
 nS      == <<"s">>
@@ -50,6 +51,8 @@ Literal(P) == \A i \in 1..Len(P) : \A j \in 1..Len(P[i]) : IsLit(P[i][j])
 HasDS(P) == \E i \in 1..Len(P) : IsDS(P[i])
 
 Pre(q, e) == Len(q) <= Len(e) /\ SubSeq(e, 1, Len(q)) = q          \* q is e or an ancestor of e
+RECURSIVE FlatRel(_)                                                \* a path as text: names joined by "/"
+FlatRel(e) == IF e = <<>> THEN <<>> ELSE IF Len(e) = 1 THEN e[1] ELSE e[1] \o <<"/">> \o FlatRel(Tail(e))
 
 \* ---------------------------------------------------------------- property level
 RECURSIVE SegMatch(_, _)
@@ -99,6 +102,13 @@ Must(k) == {x.e : x \in {x \in k.elig :
 May(k) == {x.e : x \in {x \in k.elig :
               /\ Included(k, x.e, TRUE)
               /\ \A y \in k.exc : ~ExclDoc(y, x.e, FALSE)}}
+\* a file that must be returned although an exclude entry comes close to it: the entry, taken as text, is a
+\* prefix of the file's path without being the file or one of its ancestor directories (exclude "a" and
+\* the file ab/t: only what is below the directory a may be dropped, not what is below its sibling ab)
+TextPrefix(x, e) == LET a == FlatRel(x)
+                        b == FlatRel(e)
+                    IN Len(a) <= Len(b) /\ SubSeq(b, 1, Len(a)) = a
+NearExclude(k, must) == {f \in must : \E x \in k.exc : Literal(x) /\ TextPrefix(x, f) /\ ~Pre(x, f)}
 \* why a path that an include pattern selects must nevertheless not be returned
 Forbidden(k, may) == {e \in k.all \ may : Included(k, e, TRUE)}
 Why(k, e) == IF InSubpackage(k.tree, e) THEN "subpackage"
@@ -115,8 +125,7 @@ Signature == [rootDot    |-> "root-package-dot-returned",
               meta       |-> "regex-metacharacter-unescaped",
               qmarkSep   |-> "question-mark-matches-separator"]
 
-RECURSIVE FlatSegs(_)
-FlatSegs(e) == IF e = <<>> THEN <<>> ELSE IF Len(e) = 1 THEN e[1] ELSE e[1] \o <<"/">> \o FlatSegs(Tail(e))
+FlatSegs(e) == FlatRel(e)
 Flat(root, e) == IF root = "." THEN FlatSegs(e) ELSE FlatSegs(<<RootName>> \o e)   \* the walk's name of e
 
 \* character-level matcher over tokens <<kind, arg>>
@@ -216,7 +225,7 @@ StrSet(S) == S
 \* ---------------------------------------------------------------- case menus
 \* the rich tree: every interesting path at once; what varies is where the BUILD files are
 RichFiles == {<<nB>>, <<nAT>>, <<nPlus>>, <<nDollar>>, <<nParen>>, <<nHidT>>,
-              <<nA, nT>>,
+              <<nA, nT>>, <<nAB, nT>>, <<nAB, nAT>>,
               <<nD, nAT>>, <<nD, nT>>, <<nD, nHidT>>, <<nD, nD, nAT>>, <<nD, nA, nT>>,
               <<nHid, nAT>>,
               <<nS, nAT>>, <<nS, nUpT>>,
@@ -235,7 +244,7 @@ pDotStar == <<".", "*">>
 SegFull == {pStar, pQ, pStarT, pAQT, pCls, pDotStar, nAT, nPlus, nDollar, nParen, nA, nD, nS, nT, nHid, DS}
 SegCore == {pStar, pStarT, pAQT, nD, DS}
 SegExc  == {pStar, pStarT, pAQT, nAT, nDollar, nA, nD, nS, nT, nHid, DS}
-SegExcQuick == {pStar, pStarT, pAQT, nAT, nDollar, nD, nS, nHid, DS}
+SegExcQuick == {pStar, pStarT, pAQT, nAT, nDollar, nA, nD, nS, nHid, DS}
 PatSeqs(A, lens) == {P \in UNION {[1..n -> A] : n \in lens} : \A i \in 1..(Len(P) - 1) : ~(IsDS(P[i]) /\ IsDS(P[i + 1]))}
 
 Seed(kind, root, files, pkgs, hid) ==
@@ -252,14 +261,14 @@ ExcPats(A, lens) == ExcIncMenu \X ({{x} : x \in PatSeqs(A, lens)} \cup ExcPairs)
 
 \* small trees: every set of at most K paths of a small universe (absence matters to the walk), x BUILD
 \* placements x a short pattern menu
-SmallUniverse == {<<nAT>>, <<nHidT>>, <<nA, nT>>, <<nD, nAT>>, <<nD, nD, nAT>>, <<nHid, nAT>>, <<nS, nAT>>,
+SmallUniverse == {<<nAT>>, <<nHidT>>, <<nA, nT>>, <<nAB, nT>>, <<nD, nAT>>, <<nD, nD, nAT>>, <<nHid, nAT>>, <<nS, nAT>>,
                   <<nS, nUpT>>, <<nD, nS, nAT>>, <<nOut, nAT>>}
 SmallSeeds(K, hids) == UNION {{Seed("small", r, F, m, h) : r \in Roots, h \in hids,
                                     m \in SUBSET ({<<nS>>, <<nD, nS>>, <<nD>>} \cap UNION {Ancestors(f) : f \in F})} :
                                F \in {F \in SUBSET SmallUniverse : Cardinality(F) <= K}}
-SmallPatsQuick == IncPats({<<pStar>>, <<DS, pStarT>>, <<nD, DS>>, <<pStar, pStar>>}) \cup {<< <<<<DS>>>>, {<<nAT>>} >>}
+SmallPatsQuick == IncPats({<<pStar>>, <<DS, pStarT>>, <<nD, DS>>, <<pStar, pStar>>}) \cup {<< <<<<DS>>>>, {<<nAT>>} >>, << <<<<DS>>>>, {<<nA>>} >>}
 SmallPatsThorough == LET P == {<<pStar>>, <<DS>>, <<DS, pStarT>>, <<pStar, pStar>>, <<nD, DS>>, <<DS, pAQT>>, <<nD, DS, nAT>>, <<pAQT>>}
-                     IN IncPats(P) \cup ({<<Q>> : Q \in P} \X {{<<nAT>>}})
+                     IN IncPats(P) \cup ({<<Q>> : Q \in P} \X {{<<nAT>>}, {<<nA>>}})
 
 \* (operators with a parameter, so that TLC does not evaluate every menu when it starts)
 \* quick: root/non-root x BUILD placement x hidden flag covered pairwise rather than as a full product
@@ -324,5 +333,6 @@ CaseOK ==
            panic  |-> AlgoPanic(k, {}), algo |-> StrSet(a0),
            diffs  |-> SetToSeq({<<Str(e), "extra", Class(k, e, FALSE, S)>> : e \in extra}
                                \cup {<<Str(e), "missing", Class(k, e, TRUE, S)>> : e \in missing}),
-           forbid |-> SetToSeq({<<Str(e), Why(k, e)>> : e \in Forbidden(k, may)})])>>)
+           forbid |-> SetToSeq({<<Str(e), Why(k, e)>> : e \in Forbidden(k, may)}),
+           near   |-> StrSet(NearExclude(k, must))])>>)
 =============================================================================
